@@ -757,7 +757,7 @@ class DocTest:
         # Use the same capture object for all parts in the test
         cap = utils.CaptureStdout(suppress=self._suppressed_stdout,
                                   enabled=needs_capture)
-        with _restored_last_value(), warnings.catch_warnings(record=True) as self.warn_list:
+        with warnings.catch_warnings(record=True) as self.warn_list:
             for partx, part in enumerate(self._parts):
 
                 if DEBUG:
@@ -883,7 +883,13 @@ class DocTest:
                         # NOTE: For code passed to eval or exec, there is no
                         # difference between locals and globals. Only pass in
                         # one dict, otherwise there is weird behavior
-                        with cap:
+                        if part.compile_mode == 'single':
+                            # the value such a part shows goes through
+                            # sys.displayhook, which also stores it
+                            last_value_guard = _restored_last_value()
+                        else:
+                            last_value_guard = contextlib.nullcontext()
+                        with cap, last_value_guard:
                             # We can execute each part using exec or eval.  If
                             # a doctest part has `compile_mode=eval` we
                             # expect it to return an object with a repr that
@@ -1493,8 +1499,9 @@ def _restored_last_value():
     """
     A part compiled in "single" mode hands the value of an expression statement
     to :func:`sys.displayhook`, which stores it as ``builtins._``. Put back
-    what was there before, so that a doctest cannot see the last value of
-    the doctest that ran before it.
+    what was there before the part ran, so that a doctest cannot see the last
+    value of the doctest that ran before it (and a ``_`` installed by the
+    module under test, e.g. by gettext, is neither lost nor overwritten).
     """
     missing = object()
     prev = getattr(builtins, '_', missing)
